@@ -21,7 +21,7 @@ class KGen:
     def __init__(self, rng: random.Random, weights: dict[str, float] | None = None, *,
                  malformed: float = 0.06, wrong_state: float = 0.08, max_ctx: int = 8, max_tasks: int = 3,
                  td_depth: int = 2, gated: float = 0.35, exc_end: float = 0.4, many_callbacks: bool = False,
-                 p_cancel: float = 0.0) -> None:
+                 p_cancel: float = 0.0, p_pair: float = 0.25) -> None:
         self.rng = rng
         self.w = dict(DEFAULT_WEIGHTS)
         if weights:
@@ -34,6 +34,9 @@ class KGen:
         self.gated = gated
         self.exc_end = exc_end
         self.p_cancel = p_cancel
+        self.queue: list[dict[str, Any]] = []
+        self.p_pair = p_pair
+        self.n_pairs = 0
         self.many_callbacks = many_callbacks
         self.ctxs: dict[int, dict[str, Any]] = {}
         self.stacks: dict[int, list[int]] = {0: []}      # per task: entered contexts, innermost last
@@ -132,6 +135,13 @@ class KGen:
                 x["token"] = self.cur.get(t)
                 self.stacks[t].append(c)
                 self.cur[t] = c
+                if rng.random() < self.p_cancel * 0.4:
+                    # entered while a cancellation is already pending: the block is left at once, by
+                    # that cancellation (delivered at its first checkpoint)
+                    ex = self.exit_op(t)
+                    ex["end"] = {"k": "cancelled"}
+                    self.queue.append(ex)
+                    return {"op": "enter", "t": t, "c": c, "pre": True}
             return {"op": "enter", "t": t, "c": c}
         if kind == "exit":
             ts = [t for t, s in self.stacks.items() if s]
@@ -261,6 +271,16 @@ class KGen:
             if rng.random() < 0.04:
                 op["badUnion"] = True
                 deps[0]["form"] = "badunion"
+            elif is_async and len(deps) >= 2 and c is not None and rng.random() < self.p_pair:
+                # the same injected coroutine function called concurrently by another task whose current
+                # context is a different one
+                others_t = [t2 for t2, c2 in self.cur.items() if t2 != t and c2 is not None and c2 != c
+                            and self.ctxs[c2]["state"] == "open" and self.ctxs[c]["state"] == "open"
+                            and not any((d["ty"], d["name"]) in self.ctxs[c2].get("gated_keys", ()) for d in deps)]
+                if others_t:
+                    self.n_pairs += 1
+                    op["pair"], op["first"] = self.n_pairs, True
+                    self.queue.append({**op, "t": rng.choice(others_t), "first": False})
             return op
         if kind == "decorate":
             ps = []
@@ -316,9 +336,13 @@ class KGen:
         tries = 0
         while len(ops) < n and tries < n * 10:
             tries += 1
+            if self.queue:
+                ops.append(self.queue.pop(0))
+                continue
             op = self.gen_op()
             if op is not None:
                 ops.append(op)
+        ops += self.queue
         ops += self.closing_ops()
         # every async lookup gets its own label (suspended lookups are reported under it)
         for i, op in enumerate(ops):
@@ -352,11 +376,16 @@ def valid_ops(ops: list[dict[str, Any]]) -> bool:
     ctxs: dict[int, dict[str, Any]] = {}
     stacks: dict[int, list[int]] = {0: []}
     cur: dict[int, int | None] = {0: None}
-    for op in ops:
+    for n, op in enumerate(ops):
         k = op["op"]
         t = op.get("t", 0)
         if k != "finish" and t not in stacks:
             return False
+        if k == "enter" and op.get("pre"):
+            nxt = ops[n + 1] if n + 1 < len(ops) else {}
+            if not (nxt.get("op") == "exit" and nxt.get("c") == op.get("c") and nxt.get("t", 0) == t
+                    and nxt["end"]["k"] == "cancelled"):
+                return False
         c = op.get("c")
         if k == "new":
             if c in ctxs:
@@ -373,6 +402,12 @@ def valid_ops(ops: list[dict[str, Any]]) -> bool:
             stacks[op["t2"]] = []
             cur[op["t2"]] = cur[t]
             continue
+        if k == "inject" and op.get("first"):
+            nxt = ops[n + 1] if n + 1 < len(ops) else {}
+            if nxt.get("pair") == op.get("pair") and nxt.get("op") == "inject":
+                t2 = nxt.get("t", 0)
+                if t2 not in cur or cur[t] is None or cur[t2] is None or cur[t] == cur[t2]:
+                    return False
         if k in ("current", "inject", "decorate"):
             continue
         if k == "finish":
